@@ -940,6 +940,11 @@ def judge(ctx, seg, cases, hist_id):
                 ctx.fail(SIG_TRUNC,
                          f"crash {c['mode']} effect {c['k']} ({e['op']} {e['path']}) of a {kind} step leaves restart.toml "
                          f"{'empty' if tr == 'empty' else 'half written'}; the restart {outcome}: {res.get('error')}", replay)
+            elif c["snap_missing"]:
+                ctx.fail(f"C08:live-path-lost-files:{site}",
+                         f"crash {c['mode']} effect {c['k']} ({e['op']} {e['path']}) of a {kind} step: restart.toml lists "
+                         f"{c['needed_rec']['active']} as active but {c['snap_missing'][:4]} are gone; the restart {outcome} "
+                         f"({res.get('phase')}: {res.get('error')})", replay)
             else:
                 ctx.fail(f"C08:restart-does-not-start:{site}",
                          f"crash {c['mode']} effect {c['k']} ({e['op']} {e['path']}) of a {kind} step: restart {outcome} "
@@ -1002,7 +1007,15 @@ def judge(ctx, seg, cases, hist_id):
 # ----------------------------------------------------------------------------------------------
 # histories
 # ----------------------------------------------------------------------------------------------
-def pick_history(ctx, work, spec0, need, tries=40):
+def zero_swap_of_late_paths(seg):
+    """steps in which a [0-]<->[0+] swap is accepted and both replaced paths are numbered above n-2 (so that the
+    delete_old block runs for both ensembles of the ONE treat_output call)"""
+    lim = seg.n - 2
+    return [si for si, st in enumerate(seg.steps)
+            if st["kind"].startswith("zs-acc") and len(st["rows"]) == 2 and min(st["rows"]) > lim]
+
+
+def pick_history(ctx, work, spec0, need, tries=40, pred=None):
     """reference runs with seeds from ctx.rng until every needed step kind occurs"""
     for t in range(tries):
         spec = dict(spec0, seed=ctx.rng.randrange(1_000_000))
@@ -1016,7 +1029,7 @@ def pick_history(ctx, work, spec0, need, tries=40):
             ctx.disagree({"spec": spec}, f"reference run did not finish: {str(seg.ref)[:400]}", "finished")
             continue
         kinds = {st["kind"].replace("+del", "") for st in seg.steps} | ({"del"} if any(st["has_del"] for st in seg.steps) else set())
-        if need <= kinds:
+        if need <= kinds and (pred is None or pred(seg)):
             return seg
         shutil.rmtree(sub, ignore_errors=True)
     return None
@@ -1029,12 +1042,12 @@ def fresh_initial(work, spec, reg):
     return initial_model(spec, root, reg)
 
 
-def run_history(ctx, work, spec0, need, hist_id, depth2=0, limit2=45, case_filter=None):
-    seg = pick_history(ctx, work, spec0, need)
+def run_history(ctx, work, spec0, need, hist_id, depth2=0, limit2=45, case_filter=None, pred=None, tries=40):
+    seg = pick_history(ctx, work, spec0, need, tries=tries, pred=pred)
     if seg is None:
         ctx.disagree({"spec": spec0}, "no seed produced all step kinds", sorted(need))
         return
-    seg.case_filter = case_filter
+    seg.case_filter = case_filter(seg) if hist_id.startswith("n3zs") else case_filter
     spec = seg.spec
     sub = seg.work
     seg.model0 = fresh_initial(sub, spec, seg.reg)
@@ -1098,7 +1111,8 @@ def run(ctx):
     ctx.rule = ("one crash case = (history, process life, audited effect index k, mode before / after the call returned / after-open / half-written); "
                 "every audited main-process effect of every step of each history is a case; distinct by that tuple; "
                 "a case is non-trivial when a restart record exists or is being written")
-    ctx.assumptions += [
+    if not any(a.startswith("each audited effect is atomic") for a in ctx.assumptions):
+      ctx.assumptions += [
         "each audited effect is atomic; rename is atomic; a crashed write leaves a prefix (here: none or half of the bytes)",
         "the worker's effects (run_md) are not main-process effects; the synchronous runner executes them in-process, masked from the tracer",
         "trajectory file names carry os.getpid(): the children use a fixed fake pid per process life so that histories are reproducible",
@@ -1120,6 +1134,11 @@ def run(ctx):
             ("w2lifo", dict(base_spec, workers=2, steps=8, delete_old=False, completion="lifo"), set(), 2),
             # long continuation after a crash inside _move_path (stale files of the crashed store)
             ("stale", dict(base_spec, steps=40, delete_old=True, delete_old_all=True), set(), 0),
+            # exactly two interfaces (n = 3, delete lag n-2 = 1): an accepted zero swap replaces BOTH live paths in
+            # one treat_output call; every crash point of such steps (the queue must not drain the path queued by
+            # the first ensemble while restart.toml still lists it)
+            ("n3zs", dict(nintf=2, moves=["sh", "sh"], workers=1, steps=8, delete_old=True, delete_old_all=False), set(), 0),
+            ("n3zsAll", dict(nintf=2, moves=["sh", "sh"], workers=1, steps=8, delete_old=True, delete_old_all=True), set(), 0),
         ]
         if not ctx.quick:
             for r in range(2):
@@ -1137,6 +1156,14 @@ def run(ctx):
         for hist_id, spec, nd, depth2 in plans:
             work = os.path.join(base, hist_id)
             os.makedirs(work)
+            if hist_id.startswith("n3zs"):
+                def zs_filter(seg):
+                    steps = set(zero_swap_of_late_paths(seg)[: (2 if ctx.quick else 6)])
+                    return lambda e: e["step"] in steps
+                run_history(ctx, work, spec, nd, hist_id, depth2=depth2, case_filter=zs_filter,
+                            pred=lambda seg: bool(zero_swap_of_late_paths(seg)), tries=200)
+                shutil.rmtree(work, ignore_errors=True)
+                continue
             run_history(ctx, work, spec, nd, hist_id, depth2=depth2,
                         case_filter=stale_filter if hist_id.startswith("stale") else None)
             shutil.rmtree(work, ignore_errors=True)
